@@ -165,7 +165,27 @@ CORPUS = [("div", ("div", ("fact", 10), ("fact", 4)), ("div", ("fact", 7), ("fac
           ("div", ("div", ("choose", 2, 5), ("fact", 4)), ("div", ("choose", 1, 3), ("choose", 4, 2)))]
 
 
+def float_pairs():
+    """a lazy value next to a float behaves as its eager value does ('(L + 0)' is L resolved): same value, same kind, or the same error"""
+    out = []
+    for f in ("0.1", "0.5", "2.5", "1.5e-300", "(0-0.1)", "1.5e300"):
+        for L in ("5!", "200!", "C(10,3)", "(20!/18!)", "(5!/7!)", "0!"):
+            for pat in ("%s * %s", "%s / %s", "%s + %s", "%s - %s", "%s < %s", "%s == %s"):
+                out.append((pat % (f, L), pat % (f, "(%s + 0)" % L)))
+                out.append((pat % (L, f), pat % ("(%s + 0)" % L, f)))
+    return out
+
+
 def run(ctx):
+    _fp = float_pairs()
+    _fo = C.run_impl(impl_case, [a for a, _ in _fp] + [b for _, b in _fp], ctx["rundir"], limit=10.0)
+    for (a, b), oa, ob in zip(_fp, _fo[:len(_fp)], _fo[len(_fp):]):
+        ga = oa.get("raw") if not oa.get("hung") else "HUNG"
+        gb = ob.get("raw") if not ob.get("hung") else "HUNG"
+        if ga != gb or oa.get("status") != ob.get("status"):
+            ctx["report"].violation(dict(kind="lazy-vs-eager-next-to-a-float", op=a.split(" ")[1]),
+                                    "C05 fails on the implementation: %s gives %s but the eager %s gives %s" % (a, ga, b, gb),
+                                    dict(text=a, eager_text=b, impl=ga, expected=gb))
     rep, tier, seed = ctx["report"], ctx["tier"], ctx["seed"]
     rng = random.Random(seed * 104729 + 5)
     pairs, small = exhaustive()
